@@ -89,7 +89,10 @@ type c13Field struct {
 	keys [4]string // effective document key per format
 	node *c13Node
 	skip bool // dials:"-"
-	tag  reflect.StructTag
+	// embedded: an anonymous struct (or *struct) field; with its dials tag
+	// it is a named member of the document, not a promoted one
+	embedded bool
+	tag      reflect.StructTag
 }
 
 // hasOwn reports whether format f reads this field from a format-specific tag.
@@ -168,7 +171,7 @@ func c13MapOf(elem *c13Node) *c13Node {
 func c13StructOf(fields []*c13Field) *c13Node {
 	sfs := make([]reflect.StructField, len(fields))
 	for i, f := range fields {
-		sfs[i] = reflect.StructField{Name: f.name, Type: f.node.typ, Tag: f.tag}
+		sfs[i] = reflect.StructField{Name: f.name, Type: f.node.typ, Tag: f.tag, Anonymous: f.embedded}
 	}
 	return &c13Node{kind: c13Struct, fields: fields, typ: reflect.StructOf(sfs), sig: "struct"}
 }
@@ -200,6 +203,8 @@ type c13SchemaGen struct {
 	budget         int // remaining leaves
 	hasSet         bool
 	hasOwnTag      bool
+	hasEmbedded    bool
+	inElem         int // > 0 while generating the element type of a []struct
 }
 
 var c13IntBits = []int{0, 8, 16, 32, 64}
@@ -274,7 +279,10 @@ func (g *c13SchemaGen) fieldNode(depth int) *c13Node {
 		}
 	default:
 		if canNest {
-			return c13SliceOfStruct(g.structNode(depth + 1))
+			g.inElem++
+			st := g.structNode(depth + 1)
+			g.inElem--
+			return c13SliceOfStruct(st)
 		}
 	}
 	return g.scalarLeaf(false)
@@ -331,6 +339,40 @@ func (g *c13SchemaGen) structNode(depth int) *c13Node {
 		if perField {
 			style = r.Intn(3)
 		}
+		f.node = g.fieldNode(depth)
+		// (not inside slice elements: there the struct is not pointerified,
+		// and go-toml fills an embedded struct VALUE whose own key is absent
+		// from its parent's table - promotion as a fallback - which the
+		// other three libraries do not do)
+		if (f.node.kind == c13Struct || f.node.kind == c13PtrStruct) && g.inElem == 0 && r.Chance(35) {
+			// an embedded (anonymous) struct field that carries a dials tag
+			// is a named member of the document in every format. Half of
+			// them get the tag a Go programmer would write: the field's own
+			// name in another case (Limits `dials:"limits"`, MaxConn
+			// `dials:"maxConn"`); the others a tag unrelated to the name's
+			// spelling (snake/kebab of several words).
+			f.embedded = true
+			g.hasEmbedded = true
+			if r.Chance(55) {
+				style = 2 // lowerCamel: equals the Go name when case is ignored
+			} else if len(f.words) == 1 {
+				// a single word is the name in every style; add a word so
+				// snake/kebab spell it differently from the Go name
+				for {
+					ws := append(append([]string{}, f.words...), fresh()...)
+					if c := strings.Join(ws, ""); !used[c] {
+						used[c] = true
+						f.words = ws
+						break
+					}
+				}
+				f.name = gen.GoName(f.words)
+				style = r.Intn(2)
+			} else {
+				style = r.Intn(2)
+			}
+			f.node.sig = "embedded-" + f.node.sig
+		}
 		f.dialsKey = c13KeyStyle(style, f.words)
 		for k := 0; k < 4; k++ {
 			if r.Chance(18) {
@@ -365,7 +407,6 @@ func (g *c13SchemaGen) structNode(depth int) *c13Node {
 			tagParts[a] = parts[b]
 		}
 		f.tag = reflect.StructTag(strings.Join(tagParts, " "))
-		f.node = g.fieldNode(depth)
 		fields = append(fields, f)
 	}
 	if depth == 0 && g.forceTextSlice {
@@ -490,6 +531,10 @@ func c13SchemaFromType(t reflect.Type) *c13Node {
 				f.keys[c13TOML] = f.own[2]
 			}
 			f.node = c13SchemaFromType(sf.Type)
+			if sf.Anonymous {
+				f.embedded = true
+				f.node.sig = "embedded-" + f.node.sig
+			}
 			fields = append(fields, f)
 		}
 		return &c13Node{kind: c13Struct, fields: fields, typ: t, sig: "struct"}
@@ -512,6 +557,9 @@ func c13SchemaSig(n *c13Node, b *strings.Builder) {
 				if f.own[k] != "" {
 					b.WriteByte("jytc"[k])
 				}
+			}
+			if f.embedded {
+				b.WriteByte('E')
 			}
 			b.WriteByte(':')
 			c13SchemaSig(f.node, b)
